@@ -145,7 +145,7 @@ def history_cases(printed):
     for t in printed:
         dev = ""
         if t["certmsg"] == "omitted" and t["policy"] != 0:
-            dev = "omitCert"
+            dev = "omitCert" if t["cred"] == "none" else "omitCertAndProof"   # a CertificateVerify without Certificate is refused
         elif t["certmsg"] == "empty" and t["cred"] != "none":
             dev = "emptyCert"
         out.append({"name": "policy%d/cred-%s/cert-%s/%s" % (t["policy"], t["cred"], t["certmsg"], t["stall"]),
